@@ -32,8 +32,8 @@ FloorAsCoded(x, t) == LET w == CastToInt(x, t)
                          ELSE w
 
 \* floating point x (precision p) -> built-in integer t under `tag`
-FloatToInt(tag, x, p, t) ==
-    CASE tag = "nearest" -> CastToInt(DyRound(DyAdd(x, IF DyIsNeg(x) THEN <<FromInt(-1), -1>> ELSE <<One, -1>>), 64), t)
+FloatToInt(tag, x, p, pl, t) ==      \* pl = precision of long double (64 on the real machine)
+    CASE tag = "nearest" -> CastToInt(DyRound(DyAdd(x, IF DyIsNeg(x) THEN <<FromInt(-1), -1>> ELSE <<One, -1>>), pl), t)
       [] tag = "tie_to_pos_inf" ->
            LET y == DyRound(DyAdd(x, <<One, -1>>), p)
                f == FloorAsCoded(y, t)
